@@ -583,33 +583,108 @@ def _inside_loop_over(fn, node, va) -> bool:
 
 
 def r10_gradient_join(repo: Repo, rep):
-    R = rep.rule("R-C03-10", "grad joins the per-variable gradients so that row r of the result holds row r's derivatives for flat (batch,) variables as well as for (batch, d) ones: "
-                 "column_stack (1-D gradients become columns), or a concatenation along the last axis of gradients that were lifted to two axes first", floor=1,
-                 why="cat / hstack of 1-D gradients appends the t-derivatives BELOW the x-derivatives: entry r of the result belongs to another row (and another variable) - both batch shapes are accepted today")
+    R = rep.rule("R-C03-10", "grad joins the per-variable gradients so that row r of the result holds row r's derivatives, the variables side by side on the LAST axis - evaluated for two "
+                 "variables given as flat (batch,) tensors, as (batch, d) tensors and as (functions, batch, d) tensors", floor=3,
+                 why="cat / hstack of 1-D gradients appends the t-derivatives BELOW the x-derivatives; column_stack of 3-D gradients concatenates along axis 1, the point axis of an operator batch: "
+                     "entry r of the result then belongs to another row and another variable")
+    from ..absdom.listeval import Evaluator, Model, NotEval, Opaque, UNKNOWN
     fi = repo.module(MOD).functions.get("grad")
     if fi is None:
         raise AnalysisError("grad vanished")
     rep.saw(fi)
-    for n in ast.walk(fi.node):
-        if not (isinstance(n, ast.Return) and n.value is not None):
+
+    class T(Model):
+        """a gradient known by its rank and by the variables whose derivatives sit side by side on its last axis (None: the layout is lost)"""
+
+        def __init__(self, rank, cols, note=""):
+            self.rank, self.cols, self.note = rank, cols, note
+
+        def le_getattr(self, name):
+            if name == "ndim":
+                return self.rank
+            if name == "shape":
+                return tuple(f"s{k}" for k in range(self.rank))
+            raise NotEval(name)
+
+        def le_call(self, method, args, kws):
+            if method in ("dim", "ndimension"):
+                return self.rank
+            if method in ("sum", "mean"):
+                return Opaque("scalar")
+            if method == "unsqueeze" and list(args) in ([-1], [self.rank]):
+                return T(self.rank + 1, self.cols)
+            if method in ("reshape", "view") and self.rank <= 1 and [tuple(a) if isinstance(a, (list, tuple)) else a for a in args] in ([-1, 1], [(-1, 1)]):
+                return T(2, self.cols)
+            raise NotEval(method)
+
+        def le_subscript(self, idx):
+            idx = idx if isinstance(idx, tuple) else (idx,)
+            if self.rank == 1 and len(idx) == 2 and idx[0] == slice(None) and idx[1] is None:
+                return T(2, self.cols)
+            if idx[0] is Ellipsis and idx[-1] is None:
+                return T(self.rank + 1, self.cols)
+            raise NotEval("subscript")
+
+        def le_len(self):
+            return 7
+
+    def join(name, parts, dim):
+        if not (isinstance(parts, (list, tuple)) and parts and all(isinstance(p, T) for p in parts)):
+            return None
+        if name == "column_stack":
+            parts = [T(2, p.cols) if p.rank <= 1 else p for p in parts]  # documented: 0-D / 1-D tensors become (numel, 1) columns
+            dim = 1
+        elif name == "hstack":
+            dim = 0 if all(p.rank <= 1 for p in parts) else 1
+        elif name == "stack":
+            if len({p.rank for p in parts}) != 1:
+                return None
+            r = parts[0].rank
+            ax = dim if dim >= 0 else dim + r + 1
+            if r == 1 and ax == 1:
+                return T(2, [c for p in parts for c in p.cols])
+            return T(r + 1, None, f"stack along axis {ax} of rank-{r} gradients")
+        if len({p.rank for p in parts}) != 1:
+            return None
+        r = parts[0].rank
+        ax = dim if dim >= 0 else dim + r
+        if r >= 2 and ax == r - 1 and all(p.cols is not None for p in parts):
+            return T(r, [c for p in parts for c in p.cols])
+        return T(r, None, f"joined along axis {ax} of rank-{r} gradients")
+    cur = {}
+
+    def on_call(e, name, args, kws, ev, f):
+        if name.endswith("autograd.grad") and args is not None and len(args) >= 2 and isinstance(args[1], T):
+            return [T(args[1].rank, list(args[1].cols))]
+        short = name.split(".")[-1]
+        if name in ("torch.sum", "torch.mean") and args and isinstance(args[0], T):
+            return Opaque("scalar")
+        if name.startswith("torch.") and short in ("column_stack", "hstack", "cat", "concat", "concatenate", "stack") and args:
+            dim = kws.get("dim", args[1] if len(args) > 1 else 0)
+            if not isinstance(dim, int):
+                return None
+            return join("cat" if short in ("concat", "concatenate") else short, args[0], dim)
+        if name in ("torch.atleast_2d",) and args and isinstance(args[0], T):
+            return args[0] if args[0].rank >= 2 else None  # (1, n): a row, not a column
+        return None
+    va = fi.node.args.vararg.arg if fi.node.args.vararg else None
+    if va is None:
+        rep.undecided(R, fi.site(), fi.fq, "grad(model_out, *variables)", "no variadic parameter")
+        return
+    for rank, label in ((1, "flat (batch,) variables"), (2, "(batch, d) variables"), (3, "(functions, batch, d) variables")):
+        x, t = T(rank, ["x"]), T(rank, ["t"])
+        out = T(max(rank, 2), ["u"])
+        try:
+            fr = Evaluator(None, on_call).run(fi.node.body, {fi.params[0]: out, va: (x, t)})
+            got = fr.ret
+        except NotEval as err:
+            got = UNKNOWN
+        if not isinstance(got, T):
+            rep.undecided(R, fi.site(), fi.fq, f"{label}: join evaluable", repr(got)[:60])
             continue
-        v = n.value
-        if not (isinstance(v, ast.Call) and (attr_chain(v.func) or "").startswith("torch.") and v.args):
-            rep.undecided(R, fi.site(n), fi.fq, "the result is a torch join of the list of gradients", dump(v)[:80])
-            continue
-        ch = attr_chain(v.func)
-        src = dump(v.args[0])
-        lifted = any(k in src for k in ("atleast_2d", "unsqueeze(-1)", "unsqueeze(1)", "[:, None]", "reshape(", "view("))
-        if ch == "torch.column_stack":
-            ok = True
-        elif ch in ("torch.cat", "torch.concat", "torch.concatenate", "torch.hstack"):
-            ok = lifted
-        elif ch == "torch.stack":
-            ok = False
-        else:
-            rep.undecided(R, fi.site(n), fi.fq, "the result is a torch join of the list of gradients", dump(v)[:80])
-            continue
-        rep.check(R, ok, fi.site(n), fi.fq, "1-D gradients become columns of the result", dump(v)[:80], dump(v)[:80])
+        want_rank = max(rank, 2)
+        rep.check(R, got.cols == ["x", "t"] and got.rank == want_rank, fi.site(), fi.fq, f"{label}: the result has the derivatives w.r.t. x and t side by side on the last of {want_rank} axes",
+                  f"rank {got.rank}, last axis {got.cols}" + (f" ({got.note})" if got.note else ""), f"{label}: {got.cols} {got.note}")
 
 
 def r4_short_circuit(repo: Repo, rep):
